@@ -376,6 +376,10 @@ func (c *Ctx) Finish() {
 		ps.Inconclusive += p.Stats.Inconclusive
 		ps.RerunAlone += p.Stats.RerunAlone
 		ps.Skipped += p.Stats.Skipped
+		ps.MemCapFired += p.Stats.MemCapFired
+		if p.Stats.MaxRSS > ps.MaxRSS {
+			ps.MaxRSS = p.Stats.MaxRSS
+		}
 		ps.Firings = append(ps.Firings, p.Stats.Firings...)
 	}
 	if ps.Skipped > 0 {
@@ -384,6 +388,8 @@ func (c *Ctx) Finish() {
 	cov["worker_jobs"] = ps.Jobs
 	cov["worker_deaths"] = ps.WorkerDeaths
 	cov["watchdog_fired"] = ps.WatchdogFired
+	cov["largest_worker_resident_set_mib"] = ps.MaxRSS >> 20
+	cov["jobs_that_outgrew_their_share_of_the_memory"] = ps.MemCapFired
 	if ps.Inconclusive > 0 {
 		c.inconcl = append(c.inconcl, fmt.Sprintf("%d case(s) were given up in the pool and got no verdict from the run in a fresh process either (%s)", ps.Inconclusive, strings.Join(ps.Firings, "; ")))
 	}
